@@ -49,7 +49,7 @@ pub fn on_server_message(sim: &mut Sim, c: usize, ch: usize, bytes: &[u8], id: u
         let msg = match wire::decode_update(bytes, &sim.fns) {
             Ok(m) => m,
             Err(e) => {
-                sim.harness_error = Some(format!("update message does not decode: {e} {bytes:?}"));
+                sim.decode_errors.push(format!("update message does not decode: {e} {bytes:?}"));
                 return;
             }
         };
@@ -145,7 +145,7 @@ pub fn on_server_message(sim: &mut Sim, c: usize, ch: usize, bytes: &[u8], id: u
         let msg = match wire::decode_mutate(bytes, &sim.fns, sim.prof.app.track) {
             Ok(m) => m,
             Err(e) => {
-                sim.harness_error = Some(format!("mutate message does not decode: {e} {bytes:?}"));
+                sim.decode_errors.push(format!("mutate message does not decode: {e} {bytes:?}"));
                 return;
             }
         };
@@ -214,7 +214,7 @@ pub fn on_server_message(sim: &mut Sim, c: usize, ch: usize, bytes: &[u8], id: u
         let m = match wire::decode_sev(bytes, kind) {
             Ok(m) => m,
             Err(e) => {
-                sim.harness_error = Some(format!("server event {kind:?} does not decode: {e} {bytes:?}"));
+                sim.decode_errors.push(format!("server event {kind:?} does not decode: {e} {bytes:?}"));
                 return;
             }
         };
@@ -589,7 +589,7 @@ pub fn on_client_message(sim: &mut Sim, c: usize, ch: usize, bytes: &[u8]) {
                     sim.violate(p, o, d);
                 }
             }
-            Err(e) => sim.harness_error = Some(format!("client event does not decode: {e}")),
+            Err(e) => sim.decode_errors.push(format!("client event does not decode: {e}")),
         }
     }
 }
